@@ -38,8 +38,8 @@ ASSUMPTIONS = [
 
 SCRATCH_ROOT = '/dev/shm' if os.path.isdir('/dev/shm') else tempfile.gettempdir()
 USERS = {'u1': ('10.0.9.1', 7501), 'u2': ('10.0.9.2', 7502), 'u3': ('10.0.9.3', 7503)}
-FILES = {'pub/song live.mp3': 'pub', 'pub/inner/song inner.mp3': 'inner', 'fr/song friends.mp3': 'fr',
-         'us/song users.mp3': 'us'}
+FILES = {'pub/song live.mp3': 'pub', 'pub/Live Set/Song Loud.mp3': 'pubcaps', 'pub/inner/song inner.mp3': 'inner',
+         'pub/inner/deep/song deep.mp3': 'deep', 'fr/song friends.mp3': 'fr', 'us/song users.mp3': 'us'}
 
 
 class Rig:
@@ -67,14 +67,17 @@ class Rig:
             r._got_file_bytes = (lambda pc, info, data, r=r: info['data'].extend(data))   # keep uploads UPLOADING
             self.remotes[u] = r
         tw.start(scan=True)
-        self.inner_mode = None
-        if cfg.get('inner'):
-            # a nested root added later, not rescanned: its files take the new root's mode at once
-            tw.client.shares.add_shared_directory(os.path.join(share, 'pub', 'inner'),
-                                                  share_mode=DirectoryShareMode(cfg['inner']), users=['u1'])
-            self.inner_mode = cfg['inner']
-            if cfg.get('inner_rescan'):
+        # nested roots added / removed later (items move between the directories without a rescan)
+        for op in cfg.get('nest', []):
+            if op[0] == 'add':
+                tw.client.shares.add_shared_directory(os.path.join(share, op[1]), share_mode=DirectoryShareMode(op[2]),
+                                                      users=['u1'])
+            elif op[0] == 'remove':
+                tw.client.shares.remove_shared_directory(os.path.join(share, op[1]))
+            elif op[0] == 'scan':
                 tw.world.op('scan', 'scan2', lambda: tw.client.shares.scan(), record=False)
+                tw.world.run_default_for(1.5)
+        if cfg.get('nest'):
             tw.world.run_default_for(1.5)
         if cfg.get('phrase') is not None:
             tw.server.send(M.ExcludedSearchPhrases.Response([cfg['phrase']]))
@@ -88,14 +91,18 @@ class Rig:
             self.viols.append(Violation(clause, detail, signature=sig))
 
     # ---- reference -----------------------------------------------------------------------------------------
-    def mode_of(self, rel):
-        root = FILES[rel]
-        if root == 'inner':
-            return self.inner_mode or self.mode_now('pub')
-        return self.mode_now(root)
+    def holder(self, rel):
+        """reference: the innermost shared directory containing the file"""
+        path = os.path.join(self.base, 'shared', rel)
+        best = None
+        for d in self.tw.client.shares.shared_directories:
+            if path.startswith(d.absolute_path + os.sep):
+                if best is None or len(d.absolute_path) > len(best.absolute_path):
+                    best = d
+        return best
 
-    def mode_now(self, root):
-        d = self.dir_obj(root)
+    def mode_of(self, rel):
+        d = self.holder(rel)
         return d.share_mode.value if d is not None else None
 
     def dir_obj(self, root):
@@ -107,20 +114,16 @@ class Rig:
 
     def entitled(self, user, rel) -> bool:
         """reference: may this user be offered / sent this file (share mode only)"""
-        root = FILES[rel]
-        if root == 'inner' and self.inner_mode is None:
-            root = 'pub'
-        if root != 'inner' and self.dir_obj(root) is None:
+        d = self.holder(rel)
+        if d is None:
             return False          # not shared at all
         if not os.path.exists(os.path.join(self.base, 'shared', rel)):
             return False          # vanished from disk (every 'vanish' is followed by a scan)
-        mode = self.mode_of(rel)
-        friends = set(self.tw.client.settings.users.friends)
+        mode = d.share_mode.value
         if mode == 'friends':
-            return user in friends
+            return user in set(self.tw.client.settings.users.friends)
         if mode == 'users':
-            d = self.dir_obj(root if root != 'inner' else os.path.join('pub', 'inner'))
-            return user in ((d.users or []) if d is not None else ['u1'])
+            return user in (d.users or [])
         return mode == 'everyone'
 
     def blocked(self, user, flag) -> bool:
@@ -256,12 +259,22 @@ def configurations(tier):
                 if tier == 'quick' and block in ('SEARCHES',) and pub != 'everyone':
                     continue
                 out.append({'pub': pub, 'fr': fr, 'friends': friends, 'block': block})
-    for inner in ('friends', 'users'):
-        for rescan in (False, True):
-            for friends in (['u1', 'u2'], ['u1']):
-                out.append({'pub': 'everyone', 'fr': 'friends', 'friends': friends, 'block': None, 'inner': inner,
-                            'inner_rescan': rescan})
-    for phrase in ('live', 'LIVE', 'Li', 'SONG L'):
+    inner, deep = os.path.join('pub', 'inner'), os.path.join('pub', 'inner', 'deep')
+    nests = []
+    for m in ('friends', 'users'):
+        nests.append([('add', inner, m)])
+        nests.append([('add', inner, m), ('scan',)])
+        nests.append([('add', inner, m), ('scan',), ('remove', inner)])
+    nests.append([('add', inner, 'friends'), ('add', deep, 'users'), ('scan',)])
+    nests.append([('add', inner, 'friends'), ('add', deep, 'users'), ('scan',), ('remove', deep)])
+    nests.append([('add', inner, 'friends'), ('add', deep, 'users'), ('scan',), ('remove', inner)])
+    nests.append([('add', deep, 'users'), ('add', inner, 'friends')])
+    nests.append([('add', deep, 'users'), ('add', inner, 'friends'), ('remove', deep)])
+    nests.append([('add', deep, 'friends'), ('scan',), ('add', inner, 'users'), ('remove', inner)])
+    for nest in nests:
+        for friends in (['u1', 'u2'], ['u1']):
+            out.append({'pub': 'everyone', 'fr': 'friends', 'friends': friends, 'block': None, 'nest': [list(o) for o in nest]})
+    for phrase in ('live', 'LIVE', 'Li', 'SONG L', 'live set', 'Loud'):
         out.append({'pub': 'everyone', 'fr': 'friends', 'friends': ['u1', 'u2'], 'block': None, 'phrase': phrase})
     return out
 
@@ -396,6 +409,53 @@ def run_changes(state: str, changes: list) -> dict:
         rig.close()
 
 
+def run_concurrent(k: int, second: str) -> dict:
+    """two uploads; change A (block u2, picked up by the settings poll) and change B for the other upload applied k
+    iteration boundaries later, i.e. also while the cycle that processes A is suspended in an await"""
+    ERRORS.records.clear()
+    cfg = {'pub': 'everyone', 'fr': 'friends', 'friends': ['u1', 'u2'], 'block': None, 'slots': 2, 'slow': True}
+    rig = Rig(cfg)
+    tw = rig.tw
+    try:
+        for user, rel in (('u2', 'fr/song friends.mp3'), ('u3', 'pub/song live.mp3')):
+            pc = rig.remotes[user].ensure_p_conn()
+            pc.send(M.PeerTransferQueue.Request(rig.remote_path(rel)))
+        tw.world.run_default_for(1.3)
+        ups = {u.username: u for u in tw.client.transfers.get_uploads()}
+        if set(ups) != {'u2', 'u3'}:
+            rig.add('setup', f"uploads {list(ups)}", 'C08:harness-setup')
+            return {'violations': list(rig.viols), 'n': 1, 'transitions': tw.world.loop.batches}
+        from aioslsk.events import BlockListChangedEvent
+        seen = []
+        rig.on_block_event = lambda ev: seen.append(tw.world.boundaries)     # bound method kept alive by the rig
+        tw.client.events.register(BlockListChangedEvent, rig.on_block_event)
+        tw.client.settings.users.blocked = {'u2': BlockingFlag.UPLOADS}
+        tw.world.deviations = False
+        # B lands k boundaries after the library noticed A (the cycle processing A is in progress)
+        tw.world.run(until=lambda: bool(seen) and tw.world.boundaries - seen[0] >= k)
+        t_b = tw.world.now()
+        if second == 'mode':
+            tw.client.shares.update_shared_directory(rig.dir_obj('pub'), share_mode=DirectoryShareMode.FRIENDS)
+            want_b = 'File not shared'
+        elif second == 'unshare':
+            tw.client.shares.remove_shared_directory(rig.dir_obj('pub'))
+            want_b = 'File not shared'
+        tw.world.run_default_for(4.0)
+        label = f"block u2, then {second} {k} boundaries later (t={t_b:.2f})"
+        for user, want in (('u2', 'Blocked'), ('u3', want_b)):
+            up = ups[user]
+            if up.state.VALUE != TransferState.State.ABORTED:
+                rig.add('not-aborted', f"{label}: upload to {user} is {up.state.VALUE.name}, expected ABORTED ({want})",
+                        f"C08:not-aborted:concurrent:{user}")
+            elif up.abort_reason != want:
+                rig.add('abort-reason', f"{label}: upload to {user} aborted with {up.abort_reason!r}, expected {want!r}",
+                        f"C08:abort-reason:concurrent:{up.abort_reason}")
+        return {'violations': list(rig.viols), 'n': 1, 'transitions': tw.world.loop.batches,
+                'obs': tuple((u, ups[u].state.VALUE.name, ups[u].abort_reason) for u in sorted(ups)) + (round(t_b, 2),)}
+    finally:
+        rig.close()
+
+
 def change_histories(tier):
     out = []
     maxlen = 2 if tier == 'quick' else 3
@@ -416,11 +476,14 @@ def scenarios(tier: str):
     hs = change_histories(tier)
     for i in range(0, len(hs), 20):
         out.append({'kind': 'changes', 'hists': hs[i:i + 20]})
+    conc = [[k, second] for second in ('mode', 'unshare') for k in range(0, 16 if tier == 'quick' else 40)]
+    for i in range(0, len(conc), 16):
+        out.append({'kind': 'concurrent', 'cases': conc[i:i + 16]})
     return out
 
 
 def weight(params, tier):
-    return 5 if params['kind'] == 'requests' else 3
+    return 5 if params['kind'] == 'requests' else (1 if params['kind'] == 'concurrent' else 3)
 
 
 def run_scenario(params: dict, tier: str) -> dict:
@@ -429,10 +492,12 @@ def run_scenario(params: dict, tier: str) -> dict:
     outcomes = set()
     transitions = 0
     sample = None
-    items = params['cfgs'] if params['kind'] == 'requests' else params['hists']
+    items = params.get('cfgs') or params.get('hists') or params.get('cases')
     for item in items:
         if params['kind'] == 'requests':
             out = run_requests(item)
+        elif params['kind'] == 'concurrent':
+            out = run_concurrent(item[0], item[1])
         else:
             out = run_changes(item[0], item[1])
         n += out['n']
